@@ -126,20 +126,6 @@ def c15_f1_group_dim_position(case, detail):
     return (b["bins"] is not None and (case["kind"] == "ds" or len(b["dims"]) == 1)) or (case["kind"] == "ds" and len(b["dims"]) >= 2)
 
 
-def c15_f2_shortcut_kwargs(case, detail):
-    # the plain-reduction shortcut calls ds.<func>(dim=…, skipna=…) and forgets keep_attrs and min_count; it forwards
-    # skipna to count/any/all, which do not take it
-    cls = case.get("_cls", {})
-    if not cls.get("shortcut"):
-        return False
-    if not case["keep_attrs"] and "attrs" in detail and not detail.startswith("coords"):
-        return True
-    if case.get("min_count") is not None and ("values differ" in detail or "dtype" in detail):
-        return True
-    return (case["func"] in ("count", "any", "all") and case["skipna"] is not None
-            and detail.startswith("flox-raised TypeError") and "unexpected keyword argument 'skipna'" in detail)
-
-
 def c15_f3_dataset_broadcast(case, detail):
     # Dataset variables lacking a grouper dim or a reduced dim are broadcast against ALL of them before reducing:
     # replication-sensitive reductions (sum, prod, count, var, std) are inflated; in the shortcut even pass-through variables
@@ -194,7 +180,6 @@ def c15_f7_order_several_groupers(case, detail):
 PREDICATES.update({
     "C15-F7": c15_f7_order_several_groupers,
     "C15-F1": c15_f1_group_dim_position,
-    "C15-F2": c15_f2_shortcut_kwargs,
     "C15-F3": c15_f3_dataset_broadcast,
     "C15-F4": c15_f4_ellipsis_dimension_coordinate,
     "C15-F5": c15_f5_shortcut_keeps_unlabelled,
